@@ -905,7 +905,9 @@ fn split_text(s: &str) -> Vec<String> {
         // IEEE1800-2017 Clause 22.5.1, page 676, Syntax 22-2.
         // Ignore whitespace immediately after text_macro_name.
         if is_leading_whitespace {
-            if c != '\\' && !c.is_ascii_whitespace() {
+            let is_continuation =
+                c == '\\' && (iter.peek() == Some(&'\n') || iter.peek() == Some(&'\r'));
+            if !is_continuation && !c.is_ascii_whitespace() {
                 // Non-whitespace character, move onto main loop.
                 is_leading_whitespace = false;
             } else if is_backslash_prev && c == '\n' {
